@@ -441,12 +441,19 @@ pub fn execute(scenario: &dyn Fn() -> RunResult, mut d: Decider, log: bool) -> F
     quarantine::begin();
     let r = panic::catch_unwind(AssertUnwindSafe(scenario));
     quarantine::end();
+    let waf = quarantine::take_written_after_free();
     IN_RUN.with(|c| c.set(false));
     let mut d = CUR.with(|c| c.borrow_mut().take()).expect("decider vanished");
     let result = match r {
         Ok(Ok(())) => match d.pending.take() {
             Some(v) => Err(v),
-            None => Ok(()),
+            None => match waf {
+                Some((_addr, size)) => Err(Violation::new(
+                    "write-after-free",
+                    format!("a heap block of {size} bytes freed during the run was modified afterwards: somebody kept using it"),
+                )),
+                None => Ok(()),
+            },
         },
         Ok(Err(v)) => Err(d.pending.take().unwrap_or(v)),
         Err(_) => {
